@@ -265,16 +265,37 @@ def as_int_list(a):
 # ---------------------------------------------------------------------------
 # integer cases
 # ---------------------------------------------------------------------------
+KIND_NAME = {"B": "ByteArray", "D": "Delta", "R": "RunLength", "P": "IntegerPacking", "F": "FixedPoint",
+             "Q": "IntervalQuantization", "S": "StringArray"}
+
+
 def int_features(vals, dtype, v):
-    f = []
+    if v.ba_vs_packed:
+        # one root cause whatever else is special about the input
+        return "bytearray_type_differs_from_packed_type"
+    f = [dtype]
     if not vals:
         f.append("empty")
-    if v.ba_vs_packed:
-        f.append("bytearray_type_%s_than_packed" % v.ba_vs_packed if v.ba_vs_packed != "other_sign"
-                 else "bytearray_type_other_sign_than_packed")
     if v.packed_limit:
         f.append("multi_element_value")
-    return ",".join(f) or "plain"
+    return ",".join(f)
+
+
+def culprit(chain, v):
+    """Attribution of a failed round trip of representable values: the first stage that does not
+    invert its own (model-computed) input when used alone; the whole chain if every stage does."""
+    if v.cls != "accept" or len(v.inputs) != len(chain):
+        return chain_sig(chain)
+    for spec, (ivals, dt) in zip(chain, v.inputs):
+        try:
+            enc = build(spec)
+            out = enc.decode(enc.encode(np.array(ivals, dtype=dt)))
+            ok = as_int_list(np.asarray(out)) == list(ivals)
+        except Exception:  # noqa: BLE001
+            ok = False
+        if not ok:
+            return KIND_NAME[spec[0]]
+    return chain_sig(chain)
 
 
 def judge_int(ctx, case, vals, dtype, chain, v, direct, filed):
@@ -283,7 +304,7 @@ def judge_int(ctx, case, vals, dtype, chain, v, direct, filed):
     for path, res in (("direct", direct), ("file", filed)):
         if res[0] == "exc":
             if v.cls == "accept":
-                ctx.violation("%s|%s_%s_raised_%s|%s" % (chain_sig(chain), path, res[1], res[2],
+                ctx.violation("%s|%s_%s_raised_%s|%s" % (culprit(chain, v), path, res[1], res[2],
                                                        int_features(vals, dtype, v)),
                               "round trip of representable values raised %s in %s" % (res[2], res[1]),
                               case, expected=vals, observed=list(res))
@@ -300,22 +321,22 @@ def judge_int(ctx, case, vals, dtype, chain, v, direct, filed):
             continue
         shown = got if got is not None else repr(res[1])[:200]
         if v.cls == "accept":
-            ctx.violation("%s|%s_wrong_value|%s" % (chain_sig(chain), path, int_features(vals, dtype, v)),
+            ctx.violation("%s|%s_wrong_value|%s" % (culprit(chain, v), path, int_features(vals, dtype, v)),
                           "round trip of representable values returned a different array", case,
                           expected=vals, observed=shown)
         elif v.cls == "refuse_or_exact":
-            ctx.violation("%s|%s_silently_altered|%s" % (v.stage, path, v.reason),
+            ctx.violation("%s|%s_silently_altered|%s,%s" % (v.stage, path, v.reason, dtype),
                           "value the representation cannot hold was neither refused nor kept", case,
                           expected="exception or %r" % (vals,), observed=shown)
         else:
-            ctx.violation("%s|%s_wrong_value|%s" % (v.stage, path, v.reason),
+            ctx.violation("%s|%s_wrong_value|%s,%s" % (v.stage, path, v.reason, dtype),
                           "unspecified input returned a different array instead of an error", case,
                           expected="exception or %r" % (vals,), observed=shown)
     return compared, refused
 
 
 def int_case(ctx, dtype, vals, chain, group, allow_big=False):
-    v = M.int_chain(vals, M.DTYPE_TC[dtype], chain, allow_big=allow_big)
+    v = M.int_chain(vals, M.DTYPE_TC[dtype], chain, allow_big=allow_big, np_range=M.DTYPE_RANGE[dtype], np_name=dtype)
     if v.cls == "skip":
         ctx.count("skipped_pack_cap")
         return
@@ -361,16 +382,16 @@ def chain_arrays(dtype, tier, seed):
         yield from patterns(core, 5)
 
 
-def single_variants(n, first):
-    """Explicit-parameter variants of one stage (terminated by ByteArray(auto))."""
-    out = []
+def single_variants(n, first, dtype):
+    """Explicit-parameter variants of one stage (terminated by ByteArray(auto)).  Delta documents src_type
+    as 'the data type of the array to be encoded' and does not convert: only the truthful value is
+    generated for it; RunLength converts to src_type, every type code is generated."""
+    out = [[D(src_type=M.DTYPE_TC[dtype]), B()]]
     for t in INT_TCS:
-        out.append([D(src_type=t), B()])
         out.append([R(src_type=t), B()])
     out.append([D(origin=0), B()])
     out.append([D(origin=first), B()])
     out.append([D(origin=-1), B()])
-    out.append([D(src_type=I32, origin=1), B()])
     for size in (n, n + 1):
         out.append([R(src_size=size), B()])
         out.append([P(1, None, size), B()])
@@ -384,7 +405,7 @@ def all_chains(lengths):
             yield [SYMBOLS[s] for s in t]
 
 
-IPBIG_VALUES = [-(2**31), -(2**31) + 1, -(2**24), 2**24, 2**31 - 2, 2**31 - 1, 0, 1]
+IPBIG_VALUES = [-(2**31) - 1, -(2**31), -(2**31) + 1, -(2**24), 2**24, 2**31 - 2, 2**31 - 1, 2**31, 0, 1]
 
 
 def run_int_shard(shard, ctx):
@@ -409,7 +430,7 @@ def run_int_shard(shard, ctx):
             for s in SYM_ORDER:
                 for b in bas:
                     int_case(ctx, dtype, vals, [SYMBOLS[s], b], g)
-            for ch in single_variants(len(vals), vals[0] if vals else 0):
+            for ch in single_variants(len(vals), vals[0] if vals else 0, dtype):
                 int_case(ctx, dtype, vals, ch, g)
     elif g == "chain":
         lengths = (2, 3) if tier == "quick" else (2, 3, 4)
